@@ -421,6 +421,10 @@ func (e *engine) checkSurvivor(sv survivor, before, after []sim.Content, beforeP
 		model, bad := L.ModelOf(im)
 		e.fail("C05", "C05.image-of-that-position", sig("image"), detail(map[string]any{"why": why, "recovered_model": model, "undecodable_pages": bad, "expected_model": expect}))
 	}
+	// the file holds exactly the pages of that position: nothing of the other image survives behind its end
+	if fi, serr := os.Stat(filepath.Join(dbDir, "database")); serr == nil && want.N > 0 && fi.Size() != int64(want.N)*int64(L.PageSize) {
+		e.fail("C05", "C05.image-of-that-position", sig("file-size"), detail(map[string]any{"file_bytes": fi.Size(), "expected_pages": want.N, "page_size": L.PageSize}))
+	}
 	if pos.have && pos.txid > 0 && im.Checksum(L.LockPgno()) != pos.chk {
 		e.fail("C04", "C04.reported-equals-from-scratch", sig("checksum-after-restart"), detail(map[string]any{"reported": pos.chk, "from_scratch": im.Checksum(L.LockPgno())}))
 	}
